@@ -893,6 +893,8 @@ impl Check for C09 {
             Tier::Quick => {
                 if idx < Self::quick_exh() {
                     exhaustive_scn(idx, 3)
+                } else if idx % 400 == 11 {
+                    Some(crate::p_e1::gen_cycles(rng))
                 } else if idx % 3 == 2 {
                     Some(gen_model_multi(rng))
                 } else {
@@ -903,6 +905,10 @@ impl Check for C09 {
                 let n = exhaustive_count(4);
                 if idx < 4 * n {
                     exhaustive_scn(idx % n, 4)
+                } else if idx % 400 == 11 {
+                    Some(crate::p_e1::gen_cycles(rng))
+                } else if idx % 3 == 2 {
+                    Some(gen_model_multi(rng))
                 } else {
                     Some(gen_model_random(rng))
                 }
